@@ -74,6 +74,38 @@ func runOne(ctx context.Context, sp solverSpec, file string, tmo time.Duration) 
 
 // Solve runs the portfolio: z3-new first with a short slice; if undecided, the others in parallel
 // with the full timeout. First definite answer wins.
+// SolveRace runs z3-new and cvc5 side by side from the start (used for the instantiated,
+// quantifier-free scripts, where cvc5 is often the faster one).
+func SolveRace(dir, name, script string, tmo time.Duration) Result {
+	file := filepath.Join(dir, name+".smt2")
+	if err := os.WriteFile(file, []byte(script), 0o644); err != nil {
+		return Result{Status: "error", Output: err.Error()}
+	}
+	t0 := time.Now()
+	ctx, cancel := context.WithCancel(context.Background())
+	defer cancel()
+	ch := make(chan Result, 2)
+	for _, sp := range solvers[:2] {
+		sp := sp
+		go func() { ch <- runOne(ctx, sp, file, tmo) }()
+	}
+	var last Result
+	for i := 0; i < 2; i++ {
+		x := <-ch
+		if x.Status == "unsat" || x.Status == "sat" {
+			x.Secs = time.Since(t0).Seconds()
+			return x
+		}
+		last = x
+	}
+	last.Secs = time.Since(t0).Seconds()
+	if last.Status == "error" {
+		last.Status = "unknown"
+	}
+	last.Backend = "z3-5.1.0|cvc5-1.0"
+	return last
+}
+
 func Solve(dir, name, script string, tmo time.Duration) Result {
 	file := filepath.Join(dir, name+".smt2")
 	if err := os.WriteFile(file, []byte(script), 0o644); err != nil {
